@@ -207,6 +207,20 @@ pub struct Base {
     pub n_assets: usize,
     pub n_issuances: usize,
     pub n_conf_utxos: usize,
+    /// lattice tags of what was generated (spent-output kinds, issuance kinds)
+    pub tags: Vec<String>,
+    /// facts about the generated pieces that must hold on the real code (name, holds)
+    pub checks: Vec<(&'static str, bool)>,
+}
+
+/// count the lattice tags of a base and evaluate its construction checks
+pub fn base_record(out: &mut Out, base: &Base) {
+    for t in &base.tags {
+        out.count(&format!("lattice.{}", t));
+    }
+    for (n, ok) in &base.checks {
+        out.s(n, *ok, || describe(&base.tx, &base.utxos, &base.spent));
+    }
 }
 
 fn plain_txin(rng: &mut R) -> TxIn {
@@ -248,6 +262,19 @@ pub struct Shape {
     pub issuance: bool,
     pub max_outs: usize,
     pub zero_opreturn: bool,
+    /// spent outputs: 0 = all explicit, 1 = round robin over the kinds
+    /// EE, CC (made by the library), CC, CE (asset blinded, amount explicit), EC (amount blinded on the
+    /// unblinded generator), 2 = all CC
+    pub utxo_mode: u8,
+    /// every other issuance gets confidential amounts (TxIn::blind_issuances_with_bfs)
+    pub conf_issuance: bool,
+    /// rotates the round robins
+    pub seq: usize,
+}
+impl Default for Shape {
+    fn default() -> Shape {
+        Shape { n_in: 1, n_assets: 1, issuance: false, max_outs: 2, zero_opreturn: false, utxo_mode: 1, conf_issuance: false, seq: 0 }
+    }
 }
 
 /// a balanced explicit transaction over `n_assets` assets with `n_in` inputs (mix of explicit and
@@ -301,19 +328,22 @@ pub fn base_tx(rng: &mut R, secp: &Secp256k1<All>, sh: &Shape) -> Base {
     let mut spent = vec![];
     let mut n_iss = 0;
     let mut n_conf = 0;
-    // all spent outputs explicit / mixed / all confidential
-    let conf_p = match rng.gen_range(0..5) { 0 => 0, 1 => 2, _ => 1 };
+    let mut tags: Vec<String> = vec![];
+    let mut checks: Vec<(&'static str, bool)> = vec![];
     for i in 0..sh.n_in {
         let a = assets[in_asset[i]];
         let v = in_vals[i];
         let mut inp = plain_txin(rng);
         let spk = addressable_script(rng);
-        let mode = if conf_p == 0 { 0 } else if conf_p == 2 { rng.gen_range(2..5) } else { rng.gen_range(0..5) };
-        let (utxo, sec) = if mode < 2 {
+        // kind of the spent output: E/C for (asset, amount)
+        let mode = match sh.utxo_mode { 0 => 0, 2 => 2, _ => (sh.seq + i) % 5 };
+        let (utxo, sec) = if mode == 0 {
+            tags.push("utxo.EE".into());
             (TxOut { asset: Asset::Explicit(a), value: Value::Explicit(v), nonce: Nonce::Null, script_pubkey: spk, witness: TxOutWitness::default() },
              TxOutSecrets::new(a, AssetBlindingFactor::zero(), v, ValueBlindingFactor::zero()))
-        } else if mode == 2 && v < (1 << 63) {
+        } else if mode == 1 && v < (1 << 63) {
             // a confidential output made by the library itself
+            tags.push("utxo.CC_lib".into());
             let abf = AssetBlindingFactor::new(rng);
             let vbf = ValueBlindingFactor::new(rng);
             let sec = TxOutSecrets::new(a, abf, v, vbf);
@@ -321,9 +351,26 @@ pub fn base_tx(rng: &mut R, secp: &Secp256k1<All>, sh: &Shape) -> Base {
             let esk = gen::seckey(rng);
             let prev = SurjectionInput::Known { asset: a, asset_bf: AssetBlindingFactor::new(rng) };
             let o = TxOut::with_txout_secrets(rng, secp, spk, PublicKey::from_secret_key(secp, &rsk), esk, sec, &[prev]).expect("with_txout_secrets");
+            checks.push(("lib_made_utxo_unblinds", matches!(o.unblind(secp, rsk), Ok(x) if x == sec)));
             n_conf += 1;
             (o, sec)
+        } else if mode == 3 {
+            // asset blinded, amount explicit: the verifier commits to the amount on the blinded generator
+            tags.push("utxo.CE".into());
+            let abf = AssetBlindingFactor::new(rng);
+            n_conf += 1;
+            (TxOut { asset: Asset::new_confidential(secp, a, abf), value: Value::Explicit(v), nonce: Nonce::Null, script_pubkey: spk, witness: TxOutWitness::default() },
+             TxOutSecrets::new(a, abf, v, ValueBlindingFactor::zero()))
+        } else if mode == 4 {
+            // amount blinded on the unblinded generator, asset explicit
+            tags.push("utxo.EC".into());
+            let vbf = ValueBlindingFactor::new(rng);
+            n_conf += 1;
+            (TxOut { asset: Asset::Explicit(a), value: Value::new_confidential_from_assetid(secp, v, a, vbf, AssetBlindingFactor::zero()),
+                     nonce: Nonce::Null, script_pubkey: spk, witness: TxOutWitness::default() },
+             TxOutSecrets::new(a, AssetBlindingFactor::zero(), v, vbf))
         } else {
+            tags.push("utxo.CC".into());
             let abf = AssetBlindingFactor::new(rng);
             let vbf = ValueBlindingFactor::new(rng);
             n_conf += 1;
@@ -344,14 +391,42 @@ pub fn base_tx(rng: &mut R, secp: &Secp256k1<All>, sh: &Shape) -> Base {
                 amount: Value::Explicit(amount),
                 inflation_keys: keys.map(Value::Explicit).unwrap_or(Value::Null),
             };
+            // every other issuance with confidential amounts, made by the library
+            let conf_iss = sh.conf_issuance && (sh.seq + i) % 2 == 0;
+            let (ivbf, tvbf) = if conf_iss {
+                let (x, y) = (ValueBlindingFactor::new(rng), ValueBlindingFactor::new(rng));
+                if keys.is_none() {
+                    // made by the library
+                    let r = inp.blind_issuances_with_bfs(secp, x, y, gen::seckey(rng), gen::seckey(rng));
+                    checks.push(("blind_issuances_with_bfs_ok", r.is_ok()));
+                } else {
+                    // by hand: the token id the verifier derives depends on the amount being confidential,
+                    // so the keys are committed on the generator of the id read AFTER the amount is blinded
+                    // (TxIn::blind_issuances_with_bfs reads the ids before: see probe.blind_issuances_token_id)
+                    let (aid0, _) = inp.issuance_ids();
+                    inp.asset_issuance.amount = Value::new_confidential_from_assetid(secp, amount, aid0, x, AssetBlindingFactor::zero());
+                    let (_, tid1) = inp.issuance_ids();
+                    inp.asset_issuance.inflation_keys = Value::new_confidential_from_assetid(secp, keys.unwrap(), tid1, y, AssetBlindingFactor::zero());
+                }
+                (x, y)
+            } else {
+                (ValueBlindingFactor::zero(), ValueBlindingFactor::zero())
+            };
+            tags.push(format!("issuance.{}{}{}", if re { "re" } else { "new" }, if conf_iss { ".conf" } else { ".explicit" }, if keys.is_some() { ".keys" } else { "" }));
+            // (the token id depends on whether the amount is confidential: read the ids afterwards)
             let (aid, tid) = inp.issuance_ids();
-            spent.push(TxOutSecrets::new(aid, AssetBlindingFactor::zero(), amount, ValueBlindingFactor::zero()));
+            if conf_iss && keys.is_none() {
+                checks.push(("blinded_issuance_amount_is_commitment_on_unblinded_generator",
+                    inp.asset_issuance.amount == Value::new_confidential_from_assetid(secp, amount, aid, ivbf, AssetBlindingFactor::zero())
+                        && inp.witness.amount_rangeproof.is_some()));
+            }
+            spent.push(TxOutSecrets::new(aid, AssetBlindingFactor::zero(), amount, ivbf));
             let kparts = rng.gen_range(1..=2usize).min(amount as usize);
             for p in split(rng, amount as u128, kparts) {
                 outs.push((aid, p, false));
             }
             if let Some(k) = keys {
-                spent.push(TxOutSecrets::new(tid, AssetBlindingFactor::zero(), k, ValueBlindingFactor::zero()));
+                spent.push(TxOutSecrets::new(tid, AssetBlindingFactor::zero(), k, tvbf));
                 outs.push((tid, k, false));
             }
         }
@@ -385,6 +460,8 @@ pub fn base_tx(rng: &mut R, secp: &Secp256k1<All>, sh: &Shape) -> Base {
         n_assets: live_assets,
         n_issuances: n_iss,
         n_conf_utxos: n_conf,
+        tags,
+        checks,
     }
 }
 
@@ -589,6 +666,189 @@ pub fn c04_case(rng: &mut R, out: &mut Out, secp: &Secp256k1<All>, base: &Base, 
     }
 }
 
+// ------------------------------------------------------------------------------------------------
+// partially blinded outputs: the whole (asset, amount) lattice, built with the library's own pieces
+
+/// kind of an output: asset Explicit/Confidential × amount Explicit/Confidential/Zero (explicit 0
+/// on an OP_RETURN script)
+#[derive(Clone, Copy, PartialEq, Eq, Debug)]
+pub enum OutKind { EE, CC, EC, CE, CZ, EZ }
+impl OutKind {
+    pub fn name(self) -> &'static str {
+        match self { OutKind::EE => "EE", OutKind::CC => "CC", OutKind::EC => "EC", OutKind::CE => "CE", OutKind::CZ => "CZ", OutKind::EZ => "EZ" }
+    }
+}
+
+pub struct Lattice {
+    pub tx: Transaction,
+    pub kinds: Vec<OutKind>,
+    pub out_secrets: Vec<TxOutSecrets>,
+    /// receiver keys of the fully blinded outputs
+    pub rsk: BTreeMap<usize, SecretKey>,
+    /// index of the output whose value blinding factor was solved with `ValueBlindingFactor::last`
+    pub solver: usize,
+}
+
+fn op_return_script(rng: &mut R) -> Script {
+    let mut d = vec![0x6a, 0x03];
+    d.extend(gen::bytes(rng, 3));
+    Script::from(d)
+}
+
+/// an output with a confidential asset and the explicit amount `v` (0: on an OP_RETURN script), with
+/// the surjection proof `Asset::blind` makes for it
+pub fn asset_blinded_output(rng: &mut R, secp: &Secp256k1<All>, a: AssetId, v: u64, spk: Script, spent: &[TxOutSecrets]) -> Option<(TxOut, TxOutSecrets)> {
+    let abf = AssetBlindingFactor::new(rng);
+    let mut prng = R::seed_from_u64(rng.gen());
+    let (asset, sp) = Asset::Explicit(a).blind(&mut prng, secp, abf, spent).ok()?;
+    Some((
+        TxOut { asset, value: Value::Explicit(v), nonce: Nonce::Null, script_pubkey: spk, witness: TxOutWitness { surjection_proof: Some(Box::new(sp)), rangeproof: None } },
+        TxOutSecrets::new(a, abf, v, ValueBlindingFactor::zero()),
+    ))
+}
+
+/// an output with an explicit asset and the amount committed on the unblinded generator, with the
+/// range proof `Value::blind_with_shared_secret` makes for it
+pub fn amount_blinded_output(rng: &mut R, secp: &Secp256k1<All>, a: AssetId, v: u64, vbf: ValueBlindingFactor, spk: Script) -> Option<(TxOut, TxOutSecrets)> {
+    let msg = elements::RangeProofMessage::new(a, AssetBlindingFactor::zero());
+    let (value, rp) = Value::Explicit(v).blind_with_shared_secret(secp, vbf, gen::seckey(rng), &spk, &msg).ok()?;
+    Some((
+        TxOut { asset: Asset::Explicit(a), value, nonce: Nonce::Null, script_pubkey: spk, witness: TxOutWitness { surjection_proof: None, rangeproof: Some(Box::new(rp)) } },
+        TxOutSecrets::new(a, AssetBlindingFactor::zero(), v, vbf),
+    ))
+}
+
+/// the outputs of `base` re-made over the lattice of kinds (round robin from `seq`), one amount
+/// blinding factor solved with the real `ValueBlindingFactor::last`, plus a zero-value OP_RETURN output
+/// with a blinded asset.  Emits the `blind.last` op for the solved factor.
+pub fn lattice_tx(rng: &mut R, out: &mut Out, secp: &Secp256k1<All>, base: &Base, seq: usize) -> Option<Lattice> {
+    let n = base.tx.output.len();
+    let rr = [OutKind::EC, OutKind::CE, OutKind::CC, OutKind::EE];
+    let mut kinds: Vec<OutKind> = vec![];
+    let mut k = seq;
+    for o in &base.tx.output {
+        let v = o.value.explicit().unwrap();
+        if o.script_pubkey.is_empty() { kinds.push(OutKind::EE); }
+        else if v == 0 { kinds.push(OutKind::EZ); }
+        else { kinds.push(rr[k % 4]); k += 1; }
+    }
+    // one output carries the solved value blinding factor: the last CC / EC one (made if there is none)
+    let solver = match (0..n).rev().find(|i| matches!(kinds[*i], OutKind::CC | OutKind::EC)) {
+        Some(i) => i,
+        None => {
+            let i = (0..n).find(|i| matches!(kinds[*i], OutKind::CE | OutKind::EE) && !base.tx.output[*i].script_pubkey.is_empty())?;
+            kinds[i] = if seq % 2 == 0 { OutKind::EC } else { OutKind::CC };
+            i
+        }
+    };
+    let mut secrets: Vec<Option<TxOutSecrets>> = vec![None; n];
+    let mut outs: Vec<Option<TxOut>> = vec![None; n];
+    let mut rsk = BTreeMap::new();
+    for i in 0..n {
+        if i == solver { continue; }
+        let o = &base.tx.output[i];
+        let (a, v) = (o.asset.explicit().unwrap(), o.value.explicit().unwrap());
+        let (no, sec) = match kinds[i] {
+            OutKind::EE | OutKind::EZ => (o.clone(), TxOutSecrets::new(a, AssetBlindingFactor::zero(), v, ValueBlindingFactor::zero())),
+            OutKind::CE | OutKind::CZ => asset_blinded_output(rng, secp, a, v, o.script_pubkey.clone(), &base.spent)?,
+            OutKind::EC => { let vbf = ValueBlindingFactor::new(rng); amount_blinded_output(rng, secp, a, v, vbf, o.script_pubkey.clone())? }
+            OutKind::CC => {
+                let sec = TxOutSecrets::new(a, AssetBlindingFactor::new(rng), v, ValueBlindingFactor::new(rng));
+                let sk = gen::seckey(rng);
+                let mut prng = R::seed_from_u64(rng.gen());
+                let no = TxOut::with_txout_secrets(&mut prng, secp, o.script_pubkey.clone(), PublicKey::from_secret_key(secp, &sk), gen::seckey(rng), sec, &base.spent).ok()?;
+                rsk.insert(i, sk);
+                (no, sec)
+            }
+        };
+        outs[i] = Some(no);
+        secrets[i] = Some(sec);
+    }
+    // the solved one
+    {
+        let o = &base.tx.output[solver];
+        let (a, v) = (o.asset.explicit().unwrap(), o.value.explicit().unwrap());
+        let abf = if kinds[solver] == OutKind::CC { AssetBlindingFactor::new(rng) } else { AssetBlindingFactor::zero() };
+        let others: Vec<TxOutSecrets> = secrets.iter().flatten().copied().collect();
+        let vbf = ValueBlindingFactor::last(secp, v, abf, &base.spent.iter().map(|s| s.value_blind_inputs()).collect::<Vec<_>>(), &others.iter().map(|s| s.value_blind_inputs()).collect::<Vec<_>>());
+        last_case(out, secp, v, abf, &base.spent, &others);
+        let sec = TxOutSecrets::new(a, abf, v, vbf);
+        let no = if kinds[solver] == OutKind::CC {
+            let sk = gen::seckey(rng);
+            let mut prng = R::seed_from_u64(rng.gen());
+            let no = TxOut::with_txout_secrets(&mut prng, secp, o.script_pubkey.clone(), PublicKey::from_secret_key(secp, &sk), gen::seckey(rng), sec, &base.spent).ok()?;
+            rsk.insert(solver, sk);
+            no
+        } else {
+            amount_blinded_output(rng, secp, a, v, vbf, o.script_pubkey.clone())?.0
+        };
+        outs[solver] = Some(no);
+        secrets[solver] = Some(sec);
+    }
+    let mut output: Vec<TxOut> = outs.into_iter().map(|o| o.unwrap()).collect();
+    let mut out_secrets: Vec<TxOutSecrets> = secrets.into_iter().map(|s| s.unwrap()).collect();
+    // a zero-value OP_RETURN output with a blinded asset (term 0, contributes nothing, needs its proof)
+    let czspk = op_return_script(rng);
+    let (cz, czs) = asset_blinded_output(rng, secp, base.spent[seq % base.spent.len()].asset, 0, czspk, &base.spent)?;
+    let pos = rng.gen_range(0..=output.len());
+    output.insert(pos, cz);
+    out_secrets.insert(pos, czs);
+    kinds.insert(pos, OutKind::CZ);
+    let solver = if pos <= solver { solver + 1 } else { solver };
+    let rsk = rsk.into_iter().map(|(i, k)| (if pos <= i { i + 1 } else { i }, k)).collect();
+    // superfluous proofs on an explicit output must not matter
+    if seq % 3 == 0 {
+        let rp = output.iter().find_map(|o| o.witness.rangeproof.clone());
+        let sp = output.iter().find_map(|o| o.witness.surjection_proof.clone());
+        if let Some(i) = (0..output.len()).find(|i| kinds[*i] == OutKind::EE) {
+            output[i].witness.rangeproof = rp;
+            output[i].witness.surjection_proof = sp;
+            out.count("lattice.out.EE_with_stray_proofs");
+        }
+    }
+    for k in &kinds { out.count(&format!("lattice.out.{}", k.name())); }
+    out.count(&format!("lattice.solver.{}", kinds[solver].name()));
+    Some(Lattice { tx: Transaction { version: 2, lock_time: LockTime::ZERO, input: base.tx.input.clone(), output }, kinds, out_secrets, rsk, solver })
+}
+
+/// append to a verifying transaction a zero-value OP_RETURN output with a blinded asset and its
+/// surjection proof: the transaction must still verify
+pub fn append_zero_conf_asset(rng: &mut R, secp: &Secp256k1<All>, tx: &mut Transaction, spent: &[TxOutSecrets]) -> Option<usize> {
+    let a = spent[rng.gen_range(0..spent.len())].asset;
+    let czspk = op_return_script(rng);
+    let (cz, _) = asset_blinded_output(rng, secp, a, 0, czspk, spent)?;
+    let pos = rng.gen_range(0..=tx.output.len());
+    tx.output.insert(pos, cz);
+    Some(pos)
+}
+
+/// C04-side checks on a lattice transaction: it verifies, its scalars balance, fully blinded outputs unblind
+pub fn lattice_case(rng: &mut R, out: &mut Out, secp: &Secp256k1<All>, base: &Base, seq: usize) {
+    let l = match lattice_tx(rng, out, secp, base, seq) { Some(l) => l, None => { out.count("lattice.not_built"); return; } };
+    let det = || format!("kinds {:?} tx {} utxos [{}] spent [{}]", l.kinds, hex(&serialize(&l.tx)),
+        base.utxos.iter().map(|u| hex(&serialize(u))).collect::<Vec<_>>().join(","), base.spent.iter().map(sec4).collect::<Vec<_>>().join(","));
+    let bal = balance_case(out, secp, &base.spent, &l.out_secrets);
+    out.s("lattice_scalars_balance", bal == format!("ok {}", "0".repeat(64)), &det);
+    let vr = std::panic::catch_unwind(std::panic::AssertUnwindSafe(|| l.tx.verify_tx_amt_proofs(secp, &base.utxos)));
+    out.s("lattice_tx_verifies", matches!(vr, Ok(Ok(()))), || format!("{} -> {:?}", det(), vr.as_ref().map(|r| r.as_ref().map_err(|e| e.to_string())).map_err(|_| "panic")));
+    for (i, o) in l.tx.output.iter().enumerate() {
+        let s = l.out_secrets[i];
+        match l.kinds[i] {
+            OutKind::CC => {
+                out.s("lattice_cc_unblinds", matches!(o.unblind(secp, l.rsk[&i]), Ok(x) if x == s), &det);
+            }
+            OutKind::EC => {
+                out.s("lattice_ec_commitment_reproduced", o.value == Value::new_confidential_from_assetid(secp, s.value, s.asset, s.value_bf, AssetBlindingFactor::zero()), &det);
+            }
+            OutKind::CE | OutKind::CZ => {
+                out.s("lattice_ce_commitment_reproduced", o.asset == Asset::new_confidential(secp, s.asset, s.asset_bf), &det);
+            }
+            _ => {}
+        }
+    }
+    let _ = rng;
+}
+
 /// all non-empty subsets of `items` (at most `cap`, the rest sampled)
 pub fn subsets(rng: &mut R, items: &[usize], cap: usize) -> Vec<Vec<usize>> {
     let n = items.len();
@@ -613,7 +873,7 @@ pub fn subsets(rng: &mut R, items: &[usize], cap: usize) -> Vec<Vec<usize>> {
 
 /// error paths of `Transaction::blind`
 fn blind_errors(rng: &mut R, out: &mut Out, secp: &Secp256k1<All>) {
-    let sh = Shape { n_in: 2, n_assets: 1, issuance: false, max_outs: 3, zero_opreturn: false };
+    let sh = Shape { n_in: 2, n_assets: 1, max_outs: 3, ..Shape::default() };
     let base = base_tx(rng, secp, &sh);
     let mk = markable(&base.tx);
     // none marked
@@ -686,7 +946,7 @@ fn zero_last_case(rng: &mut R, out: &mut Out, secp: &Secp256k1<All>) {
 
 /// `new_not_last_confidential` + `new_last_confidential` by hand (the raw API of examples/raw_blind.rs)
 fn manual_case(rng: &mut R, out: &mut Out, secp: &Secp256k1<All>) {
-    let sh = Shape { n_in: rng.gen_range(1..4), n_assets: 1, issuance: false, max_outs: 3, zero_opreturn: false };
+    let sh = Shape { n_in: rng.gen_range(1..4), n_assets: 1, max_outs: 3, seq: rng.gen_range(0..5), ..Shape::default() };
     let base = base_tx(rng, secp, &sh);
     let mk = markable(&base.tx);
     if mk.is_empty() { return; }
@@ -735,6 +995,23 @@ fn manual_case(rng: &mut R, out: &mut Out, secp: &Secp256k1<All>) {
     }
 }
 
+/// not a check, a recorded observation: `TxIn::blind_issuances_with_bfs` reads `issuance_ids()` before it
+/// replaces the amount by a commitment, so the inflation keys are committed on the generator of the
+/// token id of an UNBLINDED issuance, while every later `issuance_ids()` (the one in
+/// verify_tx_amt_proofs included) derives the token id of a BLINDED issuance
+fn probe_blind_issuances_token_id(rng: &mut R, out: &mut Out, secp: &Secp256k1<All>) {
+    let mut inp = plain_txin(rng);
+    inp.asset_issuance = AssetIssuance { asset_blinding_nonce: ZERO_TWEAK, asset_entropy: gen::arr32(rng), amount: Value::Explicit(1000), inflation_keys: Value::Explicit(2) };
+    let (_, tid_before) = inp.issuance_ids();
+    let y = ValueBlindingFactor::new(rng);
+    if inp.blind_issuances_with_bfs(secp, ValueBlindingFactor::new(rng), y, gen::seckey(rng), gen::seckey(rng)).is_ok() {
+        let (_, tid_after) = inp.issuance_ids();
+        let on_after = inp.asset_issuance.inflation_keys == Value::new_confidential_from_assetid(secp, 2, tid_after, y, AssetBlindingFactor::zero());
+        let on_before = inp.asset_issuance.inflation_keys == Value::new_confidential_from_assetid(secp, 2, tid_before, y, AssetBlindingFactor::zero());
+        out.count(&format!("probe.blind_issuances_token_id.keys_committed_on_{}", if on_after { "verifier_token_id" } else if on_before { "pre_blinding_token_id" } else { "neither" }));
+    }
+}
+
 /// the vector of `blind::tests::test_blind_tx`
 fn repo_vector(rng: &mut R, out: &mut Out, secp: &Secp256k1<All>) {
     let src = std::fs::read_to_string("/repo/src/blind.rs").unwrap_or_default();
@@ -778,10 +1055,21 @@ pub fn run(rng: &mut R, out: &mut Out) {
     }
     scalar_ops(rng, out, &secp, if thorough { 6000 } else { 600 });
     repo_vector(rng, out, &secp);
+    probe_blind_issuances_token_id(rng, out, &secp);
     blind_errors(rng, out, &secp);
     zero_last_case(rng, out, &secp);
     for _ in 0..(if thorough { 40 } else { 4 }) {
         manual_case(rng, out, &secp);
+    }
+    // partially blinded inputs and outputs: the whole lattice, round robin
+    for seq in 0..(if thorough { 240 } else { 24 }) {
+        let sh = Shape {
+            n_in: 1 + seq % 5, n_assets: 1 + seq % 3, issuance: seq % 2 == 1, max_outs: 2 + seq % 2, zero_opreturn: seq % 4 == 0,
+            utxo_mode: if seq % 7 == 6 { 0 } else { 1 }, conf_issuance: true, seq,
+        };
+        let base = base_tx(rng, &secp, &sh);
+        base_record(out, &base);
+        lattice_case(rng, out, &secp, &base, seq);
     }
     // the C04 statement: shapes × every non-empty subset of markable outputs
     let budget = if thorough { 2500 } else { 150 };
@@ -795,8 +1083,12 @@ pub fn run(rng: &mut R, out: &mut Out) {
             issuance: rng.gen_bool(0.4),
             max_outs: if rng.gen_bool(0.7) { 2 } else { 3 },
             zero_opreturn: rng.gen_bool(0.25),
+            utxo_mode: match round % 6 { 0 => 0, 5 => 2, _ => 1 },
+            conf_issuance: true,
+            seq: round,
         };
         let base = base_tx(rng, &secp, &sh);
+        base_record(out, &base);
         out.count(&format!("base.inputs.{}", sh.n_in));
         out.count(&format!("base.assets.{}", base.n_assets));
         if base.n_issuances > 0 { out.count("base.with_issuance"); }
